@@ -400,6 +400,44 @@ def dict_raises(ctx, st, exc):
         ctx.oblige("raises", f"only-value-errors(got {exc.cls}@{exc.origin})" + tag, False)
 
 
+# ---------------------------------------------------------------------------- Dict: --key.item=value (one item set on top of the previous mapping)
+def ditem_setup(ctx):
+    prev_kind = ["None", "dict-of-2", "dict-with-that-item", "not-a-dict"][ctx.choose(4, "previous-value")]
+    P = {"a": z3.Int("prev[a]"), "b": z3.Int("prev[b]")}
+    prev = {"None": None, "dict-of-2": dict(P), "dict-with-that-item": {"a": P["a"], "item": z3.Int("prev[item]")}, "not-a-dict": z3.Int("prev")}[prev_kind]
+    prev_snapshot = dict(prev) if isinstance(prev, dict) else None
+    new_val = z3.String("given")
+    ctx.classes.add("NestedArg", ["tuple"])
+    ctx.classes.add("MappingProxyType", ["object"])
+    nested = Rec("NestedArg", attrs={"key": "item", "val": new_val})
+    log = []
+    calls = {"adapt_typehints": adapt_model(ctx, lambda c, v, sub: True, log), UNEXPECTED: raise_unexpected, "deepcopy": lambda c, a, k: dict(a[0]), "type": lambda c, a, k: ClassRef("TypeAlias")}
+    consts = {"mapping_origin_types": (ClassRef("dict"), ClassRef("Dict")), "NestedArg": ClassRef("NestedArg"), "MappingProxyType": ClassRef("MappingProxyType"), "int": ClassRef("int"), "typed_dict_meta_types": (), "OrderedDict": ClassRef("OrderedDict")}
+    env = {"val": nested, "typehint": Rec("hint"), "typehint_origin": ClassRef("dict"), "subtypehints": (ClassRef("str"), ClassRef("T1")), "serialize": False, "prev_val": prev,
+           "adapt_kwargs": {"prev_val": prev, "sub_add_kwargs": {}}}
+    return Setup(env=env, calls=calls, consts=consts, data=dict(prev_kind=prev_kind, prev=prev, prev_snapshot=prev_snapshot, new_val=new_val, log=log, P=P))
+
+
+def ditem_post(ctx, st, result):
+    d = st.data
+    out = d["env"].lookup("val")
+    tag = f"[--key.item=v,prev:{d['prev_kind']}]"
+    base = dict(d["prev_snapshot"]) if d["prev_snapshot"] is not None else {}
+    want_keys = list(base) + ([] if "item" in base else ["item"])
+    ctx.oblige("post", "the-result-is-the-previous-mapping-with-that-one-item-set(other items kept,in order)" + tag, isinstance(out, dict) and list(out) == want_keys)
+    if isinstance(out, dict):
+        by_key = {e[0] if not is_z3(e[0]) else None: e for e in d["log"]}
+        ctx.oblige("post", "every-item-is-adapted-by-the-value-type:the-new-item-from-the-given-text,the-others-from-their-previous-values" + tag,
+                   len(d["log"]) == len(want_keys) and any(e[0] is d["new_val"] for e in d["log"]) and all(any(e[0] is base[k] for e in d["log"]) for k in base if k != "item"))
+    if d["prev_snapshot"] is not None:
+        ctx.oblige("frame", "the-previous-mapping-itself-is-not-written(it may be the parser's declared default or the caller's object):a-new-mapping-is-built" + tag,
+                   out is not d["prev"] and list(d["prev"]) == list(d["prev_snapshot"]) and all(d["prev"][k] is d["prev_snapshot"][k] for k in d["prev_snapshot"]))
+
+
+def ditem_raises(ctx, st, exc):
+    ctx.oblige("raises", f"no-exception-in-these-scenarios[prev:{st.data['prev_kind']}](got {exc.cls}@{exc.origin})", False)
+
+
 # ============================================================================ Literal
 def lit_setup(ctx):
     kind = ["int", "bool", "float", "text", "None"][ctx.choose(5, "val-kind")]
@@ -418,7 +456,7 @@ def lit_setup(ctx):
     calls = {"adapt_typehints": adapt, UNEXPECTED: raise_unexpected, "tuple": lambda c, a, k: tuple(a[0]) if not isinstance(a[0], tuple) else a[0], "type": lambda c, a, k: ClassRef(type(a[0]).__name__)}
     consts = {"literal_types": (ClassRef("Literal"),), "Union": Rec("Union", methods={"__getitem__": lambda c, s_, a, k: Rec("Union[...]", attrs={"args": a[0]})})}
     env = {"val": val, "typehint": Rec("hint"), "typehint_origin": ClassRef("Literal"), "subtypehints": literals, "adapt_kwargs": {}}
-    return Setup(env=env, calls=calls, consts=consts, data=dict(kind=kind, val=val, literals=literals, loaded_accepts=loaded_accepts), watch={"val": val} if kind != "None" else {})
+    return Setup(env=env, calls=calls, consts=consts, cms={"suppress": suppress_cm()}, data=dict(kind=kind, val=val, literals=literals, loaded_accepts=loaded_accepts), watch={"val": val} if kind != "None" else {})
 
 
 def lit_member(v, literals, strict):
@@ -563,6 +601,8 @@ def arms_units(prop):
                   trusted=["json_or_yaml_load(text) returns some int/float/bool/str/None/list or raises a loader exception (external loader)", "float(int) rounds to nearest"]))
     u.append(Unit(prop, TARGET.format("typehint_origin in tuple_set_origin_types"), ts_setup, ts_post, ts_raises, label="Tuple/Set", expect_cover=("return", "raise:ValueError"), max_paths=60000,
                   trusted=["recursive adapt_typehints(v, subtype): returns a value iff the subtype accepts v (induction hypothesis)", "is_ellipsis_tuple(hint) tells Tuple[T, ...]"]))
+    u.append(Unit(prop, TARGET.format("typehint_origin in mapping_origin_types"), ditem_setup, ditem_post, ditem_raises, label="Dict:item-option", max_paths=500,
+                  trusted=["recursive adapt_typehints by contract (induction hypothesis)"]))
     u.append(Unit(prop, TARGET.format("typehint_origin in sequence_origin_types"), lapp_setup, lapp_post, lapp_raises, label="List:append-and-sub-options", max_paths=5000,
                   trusted=["recursive adapt_typehints by contract (induction hypothesis)"]))
     u.append(Unit(prop, TARGET.format("typehint_origin in sequence_origin_types"), list_setup, list_post, list_raises, label="List", expect_cover=("return", "raise:ValueError"), max_paths=60000,
